@@ -637,6 +637,7 @@ def check_every(ctx):
     W = ctx.where(sec.module, sec.node)
     bad = None
     joined = None
+    early = None
     n = 0
     for p in t.paths:
         loops = [c for c in p.conds if c.kind == 'loop']
@@ -651,19 +652,38 @@ def check_every(ctx):
                     isinstance(x, ast.Call) and prog.callee_of(sec, x) in (
                         fmt, fj) for x in ast.walk(v)):
                 joined = joined or (p, e)
+        # a section never ends the generation: once the loop over the
+        # sections is entered the function leaves it by exhausting it
+        if loops and loops[0].pol and p.outcome.kind == 'return' and \
+                not any(e.kind == 'loopdone' and U(e.node) == U(
+                    loops[0].expr) for e in p.events) and early is None:
+            early = p
         if len(loops) < 2 or not all(c.pol for c in loops):
             continue
-        fmtc = None
+        # which format this path is about, from all its tests of it
+        cand = {'yaml', 'json', '*'}
         for c in p.conds:
             e = c.expr
-            if c.kind == 'test' and c.pol and isinstance(
-                    e, ast.Compare) and isinstance(e.ops[0], ast.Eq):
-                vals = [x.value for x in (e.left, e.comparators[0])
-                        if isinstance(x, ast.Constant)]
-                names = [U(x) for x in (e.left, e.comparators[0])
-                         if not isinstance(x, ast.Constant)]
-                if vals and names == ['output_format']:
-                    fmtc = vals[0]
+            if c.kind != 'test' or not isinstance(e, ast.Compare) or \
+                    len(e.ops) != 1:
+                continue
+            l, r_ = e.left, e.comparators[0]
+            if isinstance(l, ast.Constant):
+                l, r_ = r_, l
+            if U(l) != 'output_format':
+                continue
+            if isinstance(e.ops[0], (ast.Eq, ast.NotEq)) and isinstance(
+                    r_, ast.Constant):
+                pos = c.pol == isinstance(e.ops[0], ast.Eq)
+                cand = (cand & {r_.value}) if pos else cand - {r_.value}
+            elif isinstance(e.ops[0], (ast.In, ast.NotIn)) and isinstance(
+                    r_, (ast.Tuple, ast.List, ast.Set)) and all(
+                        isinstance(x, ast.Constant) for x in r_.elts):
+                vs = {x.value for x in r_.elts}
+                pos = c.pol == isinstance(e.ops[0], ast.In)
+                cand = (cand & vs) if pos else cand - vs
+        fmtc = next(iter(cand)) if len(cand) == 1 and '*' not in cand \
+            else None
         ys = [e for e in p.events if e.kind == 'yield']
         if fmtc not in ('yaml', 'json'):
             # no entry is only legitimate for an unknown output format
@@ -687,6 +707,14 @@ def check_every(ctx):
                 v.args[0].id.startswith('SYM_e')
         if not ok and bad is None:
             bad = (p, fmtc)
+    if early is not None:
+        ctx.ob('C17.EVERY', False, '%s:%d' % (W.split(':')[0],
+                                              early.outcome.line), sec.qual,
+               'return inside the loop over the sections',
+               'one section can end the whole generation (path: %s): every '
+               'section sorted after it is missing from the sample'
+               % early.cond_text()[-200:])
+        return
     if joined is not None:
         ctx.ob('C17.EVERY', False, '%s:%d' % (W.split(':')[0],
                                               joined[1].line), sec.qual,
